@@ -119,6 +119,35 @@ func check(c mcase, fail func(key, msg string)) {
 		} else {
 			compare("Filter", cl)
 		}
+		// one filter serves a whole List or Pull: what it has been applied to before (another type of message, for
+		// which the mask may be valid where it is not for this one, or the other way round) is no business of
+		// the next message's projection
+		for _, other := range []proto.Message{&traits.OnOff{State: traits.OnOff_ON}, &types.AudioLevel{Gain: 3, Muted: true}} {
+			f2 := masks.NewResponseFilter(masks.WithFieldMask(mask))
+			if p := guarded(func() { f2.FilterClone(other); f2.Filter(proto.Clone(other)) }); p != nil {
+				report("panic", fmt.Sprintf("FilterClone / Filter of a %T panicked: %v", other, p))
+				continue
+			}
+			if p := guarded(func() { got = f2.FilterClone(msg) }); p != nil {
+				report("panic", fmt.Sprintf("FilterClone panicked on a filter that had been applied to a %T before: %v", other, p))
+				continue
+			}
+			compare(fmt.Sprintf("FilterClone (filter applied to a %T before)", other), got)
+		}
+		for _, other := range []proto.Message{&traits.OnOff{State: traits.OnOff_ON}, &types.AudioLevel{Gain: 3, Muted: true}} {
+			// ... and the other order: this message first, then one of a type the mask may not fit
+			f3 := masks.NewResponseFilter(masks.WithFieldMask(mask))
+			f3.FilterClone(msg)
+			fresh := masks.NewResponseFilter(masks.WithFieldMask(mask))
+			var a, b proto.Message
+			if p := guarded(func() { a = f3.FilterClone(other) }); p != nil {
+				report("panic", fmt.Sprintf("FilterClone of a %T panicked on a filter applied to this message before: %v", other, p))
+				continue
+			}
+			if p := guarded(func() { b = fresh.FilterClone(other) }); p == nil && !same(a, b) {
+				report("projection", fmt.Sprintf("a filter applied to this message first projects a %T to %v, a fresh filter to %v", other, a, b))
+			}
+		}
 	case "value":
 		v := resource.NewValue(resource.WithInitialValue(msg))
 		var got proto.Message
